@@ -218,6 +218,8 @@ pub enum ApiKind {
     Release,
     /// anything that is not an acquisition
     NonAcq,
+    /// the harness's own look at a lock after a fault (no monitor applies)
+    Probe,
 }
 
 #[derive(Clone, Debug)]
@@ -315,6 +317,8 @@ pub struct Inner {
     pub faults_by: Vec<u64>,
     /// set by the workload between an injected user panic and the catch of its unwind
     pub user_unwinding: Vec<bool>,
+    /// raw operations issued after the verdict was frozen
+    pub abort_ops: u64,
 }
 
 pub struct Sched {
@@ -713,6 +717,10 @@ impl Inner {
     }
 }
 
+/// payload used to unwind a thread out of an endless loop once the run's verdict is frozen
+#[derive(Debug)]
+pub struct AbortEscape;
+
 pub struct RunOutcome {
     pub events: Vec<Event>,
     pub fp: u64,
@@ -776,6 +784,7 @@ impl Sched {
                 api_log: Vec::new(),
                 faults_by: vec![0; nthreads],
                 user_unwinding: vec![false; nthreads],
+                abort_ops: 0,
             }),
             cvs: (0..nthreads).map(|_| Condvar::new()).collect(),
             ctl: Condvar::new(),
@@ -922,6 +931,13 @@ impl Sched {
         {
             let mut g = self.lock();
             if g.abort {
+                // the verdict is frozen and every operation is granted; code that keeps spinning
+                // on state of its own (a killed lock it will never get) is unwound out of the loop
+                g.abort_ops += 1;
+                if g.abort_ops % 20_000 == 0 {
+                    drop(g);
+                    std::panic::resume_unwind(Box::new(AbortEscape));
+                }
                 return Grant { ok: true, panic: false };
             }
             let lid = match g.lid_of(addr) {
